@@ -22,6 +22,7 @@ import (
 	"testing"
 	"time"
 
+	golangproto "github.com/golang/protobuf/proto"
 	"google.golang.org/genproto/googleapis/datastore/v1"
 	"google.golang.org/grpc/encoding"
 	protoCodec "google.golang.org/grpc/encoding/proto"
@@ -96,7 +97,32 @@ func vcStruct(r *rand.Rand, depth int) *structpb.Struct {
 	return s
 }
 
+// vcLegacy is a hand-written message of the older API generation (Reset/String/ProtoMessage and struct tags only), as
+// produced by old generators: the stock gRPC codec accepts it, so the checksum codec has to frame it like any other
+type vcLegacy struct {
+	Name string  `protobuf:"bytes,1,opt,name=name,proto3" json:"name,omitempty"`
+	N    int64   `protobuf:"varint,2,opt,name=n,proto3" json:"n,omitempty"`
+	Tags []int32 `protobuf:"varint,3,rep,packed,name=tags,proto3" json:"tags,omitempty"`
+}
+
+func (m *vcLegacy) Reset()         { *m = vcLegacy{} }
+func (m *vcLegacy) String() string { return fmt.Sprintf("legacy(%q,%d,%v)", m.Name, m.N, m.Tags) }
+func (*vcLegacy) ProtoMessage()    {}
+
+// vcBigSizes: payload lengths around the powers of two where buffers and "log at most N bytes" caps usually sit
+var vcBigSizes = []int{4087, 4090, 4091, 4093, 4094, 4096, 4100, 8189, 8192, 5000, 16381}
+
 func vcMessage(r *rand.Rand, i int) (proto.Message, string) {
+	if i%32 == 19 {
+		return wrapperspb.Bytes([]byte(vcStr(r, vcBigSizes[(i/32+int(r.Int63()%3))%len(vcBigSizes)]))), "big"
+	}
+	if i%16 == 11 {
+		l := &vcLegacy{Name: vcStr(r, r.Intn(20)), N: int64(r.Intn(1 << 20))}
+		for k := r.Intn(4); k > 0; k-- {
+			l.Tags = append(l.Tags, int32(r.Intn(300)))
+		}
+		return golangproto.MessageV2(l), "legacy"
+	}
 	switch i % 8 {
 	case 0:
 		return &structpb.Struct{}, "empty"
@@ -198,8 +224,8 @@ func TestVerifChecksum(t *testing.T) {
 				t.Fatal(err)
 			}
 			// the codec must wrap exactly what the underlying codec produces for this message
-			std2, _ := inner.Marshal(msg)
-			ob, err := codec.Marshal(msg)
+			std2, _ := inner.Marshal(golangproto.MessageV1(msg))
+			ob, err := codec.Marshal(golangproto.MessageV1(msg))
 			if err != nil {
 				return
 			}
@@ -215,7 +241,7 @@ func TestVerifChecksum(t *testing.T) {
 			ev.Std, ev.Out = vcInts(std2), vcInts(ob)
 			obKeep = ob // not copied: the output must stay valid after later Marshal calls
 			d1 := msg.ProtoReflect().New().Interface()
-			if e := codec.Unmarshal(ob, d1); e == nil {
+			if e := codec.Unmarshal(ob, golangproto.MessageV1(d1)); e == nil {
 				vcStripChecksum(d1)
 				ev.DecOk = proto.Equal(d1, msg) && string(d1.ProtoReflect().GetUnknown()) == string(msg.ProtoReflect().GetUnknown())
 			}
@@ -227,7 +253,7 @@ func TestVerifChecksum(t *testing.T) {
 			ev.ErrOk = true
 			for mode := 0; mode < 3; mode++ {
 				fc := &myCodec{protoCodec: vcFailCodec{mode: mode}}
-				if _, e := fc.Marshal(msg); e != vcErr {
+				if _, e := fc.Marshal(golangproto.MessageV1(msg)); e != vcErr {
 					ev.ErrOk = false
 				}
 			}
@@ -258,9 +284,9 @@ func TestVerifChecksum(t *testing.T) {
 							ev.Panic = true
 						}
 					}()
-					std2, _ := inner.Marshal(msg)
+					std2, _ := inner.Marshal(golangproto.MessageV1(msg))
 					var err error
-					ob, err = codec.Marshal(msg)
+					ob, err = codec.Marshal(golangproto.MessageV1(msg))
 					if err != nil {
 						ob = nil
 						return
@@ -273,7 +299,7 @@ func TestVerifChecksum(t *testing.T) {
 					}
 					ev.Std = vcInts(std2)
 					d1 := msg.ProtoReflect().New().Interface()
-					if e := codec.Unmarshal(ob, d1); e == nil {
+					if e := codec.Unmarshal(ob, golangproto.MessageV1(d1)); e == nil {
 						vcStripChecksum(d1)
 						ev.DecOk = proto.Equal(d1, msg) && string(d1.ProtoReflect().GetUnknown()) == string(msg.ProtoReflect().GetUnknown())
 					}
